@@ -132,3 +132,29 @@ var sameShardPool = func() [][]byte {
 
 	return out
 }()
+
+// partialPairs are pairs of DIFFERENT keys whose 64-bit hashes differ but agree in part: the first
+// pair in the upper 32 bits and in the shard (hash % 128), the second in the lower 32 bits, the
+// third in the upper 32 bits. They are two independent keys for any correct backend (found by a
+// birthday search, verified at start-up).
+var partialPairs = func() [][2][]byte {
+	pairs := [][2][]byte{
+		{[]byte("user:672014"), []byte("user:883637")},
+		{[]byte("item:48569"), []byte("item:67349")},
+		{[]byte("acct:61594"), []byte("acct:70566")},
+	}
+	rel := []func(a, b uint64) bool{
+		func(a, b uint64) bool { return a>>32 == b>>32 && a%128 == b%128 },
+		func(a, b uint64) bool { return uint32(a) == uint32(b) },
+		func(a, b uint64) bool { return a>>32 == b>>32 },
+	}
+
+	for i, p := range pairs {
+		a, b := xxhash.Sum64(p[0]), xxhash.Sum64(p[1])
+		if a == b || !rel[i](a, b) {
+			panic(fmt.Sprintf("partialPairs[%d] does not have the intended hash relation", i))
+		}
+	}
+
+	return pairs
+}()
